@@ -274,9 +274,9 @@ func c17Run(b *core.B) {
 
 func init() {
 	core.Register(&core.Prop{
-		ID:    "C17",
-		Level: "exploration",
-		Rule: "bodies from the shared program generator (text, output tags over scope and data variables, loops, conditionals, functions, helper blocks, hash literals with recording side effects, nested partials to depth 3; no assignments) x data maps x compositions: partial (names with .js/.html/no extension), partial with layout, layout that itself calls a partial, contentFor followed by 0-3 contentOf with and without data, contentOf of an undefined name with/without default block, block helper running Block() and BlockWith(new context + data) x content type {unset, text/html, application/javascript}. Oracle (second route through the real engine): the fragment is plush.Render(body, scope.New()+data) computed separately, the expected whole is assembled by the harness (JS-escaped iff the content type contains 'javascript' and the extension is neither .js nor empty; layout text around it); outputs and the recorded side-effect traces (exactly-once) must be equal. Non-trivial = judged composition (distinct by hash).",
+		ID:      "C17",
+		Level:   "exploration",
+		Rule:    "bodies from the shared program generator (text, output tags over scope and data variables, loops, conditionals, functions, helper blocks, hash literals with recording side effects, nested partials to depth 3; no assignments) x data maps x compositions: partial (names with .js/.html/no extension), partial with layout, layout that itself calls a partial, contentFor followed by 0-3 contentOf with and without data, contentOf of an undefined name with/without default block, block helper running Block() and BlockWith(new context + data) x content type {unset, text/html, application/javascript}. Oracle (second route through the real engine): the fragment is plush.Render(body, scope.New()+data) computed separately, the expected whole is assembled by the harness (JS-escaped iff the content type contains 'javascript' and the extension is neither .js nor empty; layout text around it); outputs and the recorded side-effect traces (exactly-once) must be equal. Non-trivial = judged composition (distinct by hash).",
 		Assume:  []string{"sees disagreement between two routes through the same engine, not a common error of both (absolute correctness is the business of C01/C02/C06-C09)", "bodies that do not render inline are not judged"},
 		Batches: batchesQT(8, 32),
 		Run:     c17Run,
